@@ -19,7 +19,7 @@ CONSTANTS WordSyms,   \* symbols that are word characters
           InvalidSyms, \* symbols that stand for bytes that are not valid UTF-8
           CR, LF      \* the symbols for \r and \n
 
-Inf == 99
+Inf == 9999
 IsW(x) == x \in WordSyms
 At(s, i) == IF i >= 1 /\ i <= Len(s) THEN s[i] ELSE 0   \* 0 = outside the haystack
 
